@@ -614,6 +614,14 @@ def suppress(ctx: Any) -> List[Ob]:
             except lf.NotLinear as ex:
                 why = str(ex)
     obs.append(ob(R, g, e, 'suppressed by an answer iff it is the same record with TTL > half', ok, why))
+    # the known-answer lookup is a hash lookup: it finds the equal record only if hashing agrees with equality
+    from .c20 import congruence
+
+    for o in congruence.fn(ctx):
+        if o.statement.startswith('equal records hash equal'):
+            o.rule = R
+            o.statement = 'the known-answer table is a hash table: equal records must hash equal, else an equal known answer is not found and nothing is suppressed'
+            obs.append(o)
     return obs
 
 
